@@ -42,8 +42,8 @@ RUN_TIMEOUT_S = 180.0
 MIN_BUDGET = 150
 
 TIERS = {
-    'quick': {'runs': 3500, 'classes': 8, 'budget_s': 80},
-    'thorough': {'runs': 50000, 'classes': 32, 'budget_s': 1100},
+    'quick': {'runs': 5000, 'classes': 8, 'budget_s': 80},
+    'thorough': {'runs': 75000, 'classes': 32, 'budget_s': 1100},
 }
 
 COMPONENTS = {
@@ -56,7 +56,8 @@ COMPONENTS = {
 
 EXPECTED_PROBES = ['aes_enc_completed', 'aes_dec_completed', 'aes_roundtrip', 'aes_comb_vectors',
                    'lfsr_req_completed', 'xoroshiro_req_completed', 'trivium_req_completed',
-                   'trivium_load_completed', 'reseed', 'exact_after_fault',
+                   'trivium_load_completed', 'reseed', 'exact_after_fault', 'fault:aes_reset_in_flight',
+                   'fault:req_in_flight', 'fault:load_in_flight',
                    'bw_not_multiple_of_granule', 'sim:fast', 'sim:sim']
 
 ASSUMPTIONS = [
@@ -578,6 +579,7 @@ def run_aes_sm(case, res):
             if is_pulse:
                 if u.mode == 'busy':
                     res.faults.hit('abort_restart')
+                    res.probes.hit('fault:aes_reset_in_flight')
                 u.mode, u.T = 'busy', c + AES_LAT
                 u.key, u.data, u.origin = key, data, origin
                 u.expected = u.ref(data, key)
